@@ -58,6 +58,11 @@ fn update_vertex(idx: usize, vertex_info: &mut VertexInfo, points: &[Point<Real>
 pub(crate) fn triangulate_ear_clipping(vertices: &[Point<Real>]) -> Option<Vec<[u32; 3]>> {
     let n_vertices = vertices.len();
 
+    // A polygon needs at least three vertices (this also keeps `n_vertices - 3` below from underflowing).
+    if n_vertices < 3 {
+        return None;
+    }
+
     // Create a new vector to hold the information about vertices.
     let mut vertex_info = vec![VertexInfo::default(); n_vertices];
 
@@ -124,6 +129,17 @@ pub(crate) fn triangulate_ear_clipping(vertices: &[Point<Real>]) -> Option<Vec<[
         .enumerate()
         .find(|(_, info)| info.is_active)
     {
+        // The last three vertices were never tested. They are counter-clockwise for every valid
+        // (simple, counter-clockwise) input; anything else means the input was clockwise or degenerate.
+        if corner_direction(
+            &vertices[info.p_prev],
+            &vertices[i],
+            &vertices[info.p_next],
+        ) != Orientation::Ccw
+        {
+            return None;
+        }
+
         let triangle_points = [info.p_prev as u32, i as u32, info.p_next as u32];
         output_indices.push(triangle_points);
     }
